@@ -58,6 +58,12 @@ def config_plan(source, names, mode):
     from mc import exclusions as ex
 
     max_markers, full_product, pair_legs = mode
+    if max_markers == 0:
+        # markers x flags, and the lists without markers
+        plan = [(p, f, (), ()) for p in ex.placements(source, 1) for f in ex.flag_combinations()]
+        plan += [((), (True, True), o, n) for o, n in ex.scope_lists(names) if o or n]
+        plan.sort(key=lambda c: (len(c[0]) + len(c[2]) + len(c[3]), c[1] != (True, True), c))
+        return plan
     lists = ex.scope_lists(names)
     flagsets = ex.flag_combinations()
     seen = set()
@@ -264,8 +270,10 @@ def corpus(tier):
 
 def mode_for(kind, tier):
     """(max markers, full 3-D product?, 2-marker legs?)."""
-    if tier == "quick" or kind not in ("hand", "progen1", "progen2"):
+    if tier == "quick":
         return (1, False, False)          # two 2-D slices: markers x flags, markers x lists
+    if kind not in ("hand", "progen1", "progen2"):
+        return (0, False, False)          # progen size 3: markers x flags, and the lists alone
     return (2, True, True)                # full 3-D product for <= 1 marker, the two slices for exactly 2 markers
 
 
@@ -371,10 +379,10 @@ def run(ctx):
                 and c.get("configs_with_marker", 0) > 0, "vacuous: a configuration dimension was never used")
     ctx.note("corpus", {"modules": c.get("modules"), "hand_written": c.get("modules_hand"),
                         "progen": c.get("modules_progen")})
-    ctx.note("plan", "quick (hand-written + progen size <= 2) and progen size 3 in thorough: <= 1 marker x 4 flag "
-                     "combinations (no lists) + <= 1 marker x all list pairs (default flags); thorough for hand-written "
-                     "+ progen size <= 2: <= 1 marker x flags x lists (full product) plus exactly-2-marker placements "
-                     "x flags and x lists")
+    ctx.note("plan", "quick (hand-written + progen size <= 2): <= 1 marker x 4 flag combinations (no lists) + <= 1 marker "
+                     "x all list pairs (default flags); thorough: hand-written + progen size <= 2: <= 1 marker x flags x "
+                     "lists (full product) plus exactly-2-marker placements x flags and x lists; progen size 3: <= 1 "
+                     "marker x flags, and all list pairs without markers")
     ctx.exhaustive = True
     ctx.rule = ("one evaluation = one (module, marker placement, flag combination, only_cover, no_cover) configuration "
                 "imported through the real hook and compared with the independent region oracle (plus the "
